@@ -78,6 +78,57 @@ func (b *memcopy) Verify() {
 	}
 }
 
+// multiqueue keeps several command queues of one context busy at the same
+// time: every queue gets a host-to-device copy and a device-to-device copy
+// kernel of its own size before any queue is drained, so several queues have a
+// startable command in the same driver tick.
+type multiqueue struct {
+	driver  *driver.Driver
+	context *driver.Context
+	gpus    []int
+	n       int
+	out     [][]byte
+	in      [][]byte
+}
+
+func (b *multiqueue) SelectGPU(gpus []int) { b.gpus = gpus }
+func (b *multiqueue) SetUnifiedMemory()    {}
+func (b *multiqueue) Run() {
+	rng := rand.New(rand.NewSource(11))
+	qs := make([]*driver.CommandQueue, b.n)
+	dst := make([]driver.Ptr, b.n)
+	for i := 0; i < b.n; i++ {
+		b.driver.SelectGPU(b.context, b.gpus[i%len(b.gpus)])
+		qs[i] = b.driver.CreateCommandQueue(b.context)
+		sz := 256 * (1 + (i*5)%7)
+		data := make([]byte, sz)
+		for k := range data {
+			data[k] = byte(rng.Int())
+		}
+		b.in = append(b.in, data)
+		b.out = append(b.out, make([]byte, sz))
+		src := b.driver.AllocateMemory(b.context, uint64(sz))
+		dst[i] = b.driver.AllocateMemory(b.context, uint64(sz))
+		b.driver.EnqueueMemCopyH2D(qs[i], src, data)
+		b.driver.EnqueueMemCopyD2D(qs[i], dst[i], src, sz)
+	}
+	for i := 0; i < b.n; i++ {
+		b.driver.EnqueueMemCopyD2H(qs[i], b.out[i], dst[i])
+	}
+	for i := b.n - 1; i >= 0; i-- {
+		b.driver.DrainCommandQueue(qs[i])
+	}
+}
+func (b *multiqueue) Verify() {
+	for i := range b.in {
+		for k := range b.in[i] {
+			if b.in[i][k] != b.out[i][k] {
+				panic(fmt.Sprintf("multiqueue: queue %d byte %d differs", i, k))
+			}
+		}
+	}
+}
+
 func makeBench(name string, r *runner.Runner) benchmarks.Benchmark {
 	d := r.Driver()
 	size := *sizeFlag
@@ -115,6 +166,12 @@ func makeBench(name string, r *runner.Runner) benchmarks.Benchmark {
 		b := kmeans.NewBenchmark(d)
 		b.NumPoints, b.NumClusters, b.NumFeatures, b.MaxIter = 128, 3, 4, 3
 		return b
+	case "multiqueue":
+		n := 6
+		if size > 0 {
+			n = size
+		}
+		return &multiqueue{driver: d, context: d.Init(), n: n}
 	case "memcopy":
 		sz := uint64(65536 + 100)
 		if size > 0 {
